@@ -71,6 +71,10 @@ func c01Witnesses() []c01Witness {
 			Doc: wDoc(J{}, J{"schemas": J{"E": J{"type": "string", "enum": []interface{}{"q\"x"}}}})},
 		{Name: "self-referential-allOf",
 			Doc: wDoc(J{}, J{"schemas": J{"A": J{"allOf": []interface{}{J{"$ref": "#/components/schemas/A"}, J{"type": "object"}}}}})},
+		{Name: "property-extending-its-own-schema-inline",
+			Doc: wDoc(J{}, J{"schemas": J{"N": objWith(J{"child": J{"allOf": []interface{}{J{"$ref": "#/components/schemas/N"}, objWith(J{"extra": J{"type": "string"}})}}})}})},
+		{Name: "wildcard-json-response-fixed-status-strict", FW: "chi", Strict: true,
+			Doc: wDoc(J{"/a": J{"get": wOp("getA", J{"responses": J{"200": J{"description": "d", "content": J{"application/*+json": J{"schema": objWith(J{"a": J{"type": "string"}})}}}}})}}, nil)},
 		{Name: "fiber-security-scheme-needing-sanitising", FW: "fiber",
 			Doc: wDoc(J{"/a": J{"get": wOp("getA", J{"security": []interface{}{J{"api-key": []interface{}{}}}})}},
 				J{"securitySchemes": J{"api-key": J{"type": "apiKey", "in": "header", "name": "X-Key"}}})},
